@@ -37,7 +37,7 @@ def cases(tier, seed):
         out.append({"cls": "single", "table": "A_const", "p_f": r * 8000.0, "p_i": 8000.0, "ref": "fourier"})
     tabs = ["T_ship_gas", "S_zdip", "A_rise", "A_fall", "A_kink"]
     if tier == "thorough":
-        tabs += ["T_hay", "S_zlin", "A_kink1e3"]
+        tabs += ["T_hay", "T_lib", "S_zlin", "A_kink1e3", "A_jump"]
     for tab in tabs:
         for r in ratios:
             out.append({"cls": "single", "table": tab, "p_f": r * 8000.0, "p_i": 8000.0, "ref": "mol"})
